@@ -69,13 +69,19 @@ Definition ttl_covers (ttl period lat : N) : bool := (ttl =? TTL_FOREVER) || (pe
 Definition in_domain (sc : sys_scenario) : bool :=
   let ca := nd_cfg (ss_a sc) in
   let cb := nd_cfg (ss_b sc) in
-  negb (t_cyclic ca =? 0)
+  (* a non-cyclic offerer (period 0) is in the domain with an infinite offer TTL: after its repetition phase the answers
+     to FindService entries are what a late watcher learns it from *)
+  (negb (t_cyclic ca =? 0) || (t_announce_ttl ca =? TTL_FOREVER))
   && ttl_covers (t_announce_ttl ca) (t_cyclic ca + t_collect ca) (ss_latency sc)
   && match t_refresh cb with
      | Some r => ttl_covers (t_subscribe_ttl cb) (r + t_collect ca + t_collect cb) (ss_latency sc)
      | None => t_subscribe_ttl cb =? TTL_FOREVER
      end
-  && (rep_total ca <=? t_cyclic ca).
+  && ((t_cyclic ca =? 0) || (rep_total ca <=? t_cyclic ca))
+  (* what a peer learnt with an infinite TTL from a peer that crashed and did not come back can never be unlearnt: the
+     property speaks of restarts "after which the restarted peer sends at least one SD message" *)
+  && (negb (t_announce_ttl ca =? TTL_FOREVER) || ns_alive (node_state sc false))
+  && (negb (t_subscribe_ttl cb =? TTL_FOREVER) || ns_alive (node_state sc true)).
 
 (* Finding F16: SOME/IP-SD detects reboots per sender AND per channel.  A watcher that has heard the offerer only by
    unicast (the answer to its FindService) has no multicast history of it: when the offerer crashes before its next
@@ -114,8 +120,17 @@ Definition f20_pattern (sc : sys_scenario) (tra : trace) : bool :=
                 else st) l (false, false))
      end.
 
+(* F21 (open finding): a restart is detected once per CHANNEL (C07).  After a crash + restart of a NON-cyclic offerer the
+   watcher detects it on the multicast channel (the new incarnation's offer: stopped, offered, Subscribe) and then AGAIN on
+   the unicast channel (the new incarnation's first unicast message, the SubscribeAck, repeats session id 1): the second
+   clean-up withdraws the offer just learnt from the new incarnation.  With cyclic offers the next one repairs it; without,
+   nothing does.  Pattern: no cyclic offers and the offerer crashed at least once. *)
+Definition f21_pattern (sc : sys_scenario) : bool :=
+  (t_cyclic (nd_cfg (ss_a sc)) =? 0)
+  && existsb (fun e => negb (fst (snd e)) && match snd (snd e) with CCrash => true | _ => false end) (ss_events sc).
+
 (* codes: 1 watcher view wrong after the bound, 2 watcher view still changing after the bound, 3 server view wrong,
-   4 server view still changing, 16 = code 3 under the F16 pattern, 20 = code 3 under the F20 pattern, 90 not judged (outside the domain or the run ends before the bound) *)
+   4 server view still changing, 16 = code 3 under the F16 pattern, 20 = code 3 under the F20 pattern, 21 = code 1 / 3 under the F21 pattern, 90 not judged (outside the domain or the run ends before the bound) *)
 Definition check_C04 (sc : sys_scenario) (tra trb : trace) : list N :=
   let sa := node_state sc false in
   let sb := node_state sc true in
@@ -126,8 +141,8 @@ Definition check_C04 (sc : sys_scenario) (tra trb : trace) : list N :=
   let wv := watcher_view sc trb in
   let sv := server_view sc tra in
   (if watching then
-     (if Bool.eqb (view_now wv) offering then [] else [1]) ++ (if changes_after d wv then [2] else [])
+     (if Bool.eqb (view_now wv) offering then [] else [if f21_pattern sc then 21 else 1]) ++ (if changes_after d wv then [2] else [])
    else [])
   ++ (if ns_alive sa then
-        (if Bool.eqb (view_now sv) (offering && watching) then [] else [if f16_pattern sc tra then 16 else if f20_pattern sc tra then 20 else 3]) ++ (if changes_after d sv then [4] else [])
+        (if Bool.eqb (view_now sv) (offering && watching) then [] else [if f16_pattern sc tra then 16 else if f20_pattern sc tra then 20 else if f21_pattern sc then 21 else 3]) ++ (if changes_after d sv then [4] else [])
       else []).
